@@ -67,7 +67,7 @@ def str_random(rng, twin, n):
 
 def check(ctx):
     drv, drv_sp, drs, drs_sp = build(ctx)
-    r, g = ctx.tlc_graph("VecLife", "VecLifeStaticGraph.cfg", workers=8)
+    r, g = ctx.tlc_graph("VecLife", "VecLifeStaticGraphThorough.cfg" if ctx.thorough else "VecLifeStaticGraph.cfg", workers=8, timeout=1800)
     if not r.ok:
         ctx.model_violation(r, "capacity-cut vector laws")
     r2, g2 = ctx.tlc_graph("FixedStr", "FixedStrMC.cfg", workers=4)
